@@ -59,7 +59,6 @@ APPROX = {
     "oriented_identifier_list_gfa1": r"[!-~]*[+-],[!-~]*[+-],[!-~]*|.*,,.*|.*[^+-],.*",   # lists whose names contain commas: tokenisation is ambiguous
     "position_gfa1": r"",
     "optional_integer": r"\+[0-9]+",
-    "optional_identifier_gfa2": r"\*",
     "custom_record_type": r"[HSLCPEFGOU#]",
     "alignment_gfa2": r"[0-9]+",                      # a single-number trace is grammatical but indistinguishable from a malformed CIGAR
 }
@@ -99,3 +98,132 @@ def json_ok(s):
         return True
     except Exception:
         return False
+
+
+# ------------------------------------------------------------------------------------------ record level (from the specs)
+RECORDS = {
+    "gfa1": {
+        "H": [],
+        "S": ["segment_name_gfa1", "sequence_gfa1"],
+        "L": ["segment_name_gfa1", "orientation", "segment_name_gfa1", "orientation", "alignment_gfa1"],
+        "C": ["segment_name_gfa1", "orientation", "segment_name_gfa1", "orientation", "position_gfa1", "alignment_gfa1"],
+        "P": ["path_name_gfa1", "oriented_identifier_list_gfa1", "alignment_list_gfa1"],
+    },
+    "gfa2": {
+        "H": [],
+        "S": ["identifier_gfa2", "i", "sequence_gfa2"],
+        "E": ["optional_identifier_gfa2", "oriented_identifier_gfa2", "oriented_identifier_gfa2", "position_gfa2", "position_gfa2",
+              "position_gfa2", "position_gfa2", "alignment_gfa2"],
+        "F": ["identifier_gfa2", "oriented_identifier_gfa2", "position_gfa2", "position_gfa2", "position_gfa2", "position_gfa2", "alignment_gfa2"],
+        "G": ["optional_identifier_gfa2", "oriented_identifier_gfa2", "oriented_identifier_gfa2", "i", "optional_integer"],
+        "O": ["optional_identifier_gfa2", "oriented_identifier_list_gfa2"],
+        "U": ["optional_identifier_gfa2", "identifier_list_gfa2"],
+    },
+}
+PREDEFINED = {
+    ("gfa1", "H"): {"VN": "Z"}, ("gfa2", "H"): {"VN": "Z", "TS": "i"},
+    ("gfa1", "S"): {"LN": "i", "RC": "i", "FC": "i", "KC": "i", "SH": "H", "UR": "Z"},
+    ("gfa2", "S"): {"RC": "i", "FC": "i", "KC": "i", "SH": "H", "UR": "Z"},
+    ("gfa1", "L"): {"MQ": "i", "NM": "i", "RC": "i", "FC": "i", "KC": "i", "ID": "Z"},
+    ("gfa1", "C"): {"MQ": "i", "NM": "i", "ID": "Z"},
+    ("gfa1", "P"): {}, ("gfa2", "E"): {"TS": "i"}, ("gfa2", "F"): {"TS": "i"}, ("gfa2", "G"): {}, ("gfa2", "O"): {}, ("gfa2", "U"): {},
+}
+TAGRE = re.compile(r"([A-Za-z][A-Za-z0-9]):([AifZJHB]):(.*)", re.S)
+
+
+def value_ok(dt, s):
+    """True / False / None (None = the oracle does not pin this cell)"""
+    if approx(dt, s):
+        return None
+    if dt == "B":
+        return b_array_ok(s)
+    if dt == "oriented_identifier_list_gfa1" and fullmatch(dt, s):
+        # a name may contain commas: when splitting on commas does not give NAME[+-] pieces the tokenisation is ambiguous
+        if not all(re.fullmatch(NAME1 + r"[+-]", p) and "," not in p for p in s.split(",")):
+            return None
+    if dt == "J":
+        ok = json_ok(s)
+        if ok:
+            import json
+            v = json.loads(s)
+            if not isinstance(v, (list, dict)):
+                return None          # scalar JSON: RFC allows, property text calls it a deviation
+        return ok
+    return fullmatch(dt, s)
+
+
+def _pos(s):
+    return (int(s.rstrip("$")), s.endswith("$"))
+
+
+def line_ok(line, version):
+    """verdict of the oracle on one line of a document of the given version: True / False / None (not pinned)"""
+    if "\n" in line:
+        return None
+    if line.startswith("#"):
+        return True
+    f = line.split("\t")
+    rt = f[0]
+    table = RECORDS[version]
+    if rt not in table:
+        if version == "gfa1" or not fullmatch("custom_record_type", rt) or rt in "HSLCPEFGOU":
+            return False if version == "gfa1" else None
+        return None                      # custom records: positional/tag boundary is heuristic
+    dts = table[rt]
+    if len(f) - 1 < len(dts):
+        return False
+    verdict = True
+    for dt, s in zip(dts, f[1:1 + len(dts)]):
+        v = value_ok(dt, s)
+        if v is False:
+            return False
+        if v is None:
+            verdict = None
+    names = set()
+    pre = PREDEFINED.get((version, rt), {})
+    for t in f[1 + len(dts):]:
+        m = TAGRE.fullmatch(t)
+        if not m or m.group(3) == "":
+            return False
+        n, dt, val = m.groups()
+        if n in names:
+            return False
+        names.add(n)
+        if n in pre:
+            if pre[n] != dt:
+                return False
+        elif n.isupper() or (n[0].isupper() and n[1].isdigit()):
+            return None                  # upper-case names are reserved: gfapy refuses unknown ones, the spec only reserves them
+        v = value_ok(dt, val)
+        if v is False:
+            return False
+        if v is None:
+            verdict = None
+    # cross-field rules
+    try:
+        if version == "gfa1" and rt == "S":
+            tags = dict((TAGRE.fullmatch(t).group(1), TAGRE.fullmatch(t).group(3)) for t in f[3:])
+            if "LN" in tags and f[2] != "*" and int(tags["LN"]) != len(f[2]):
+                return False
+        if version == "gfa1" and rt == "P":
+            n = len(f[2].split(","))
+            ov = f[3].split(",")
+            if not (f[3] == "*" or len(ov) in (n - 1, n)):
+                return False
+        if version == "gfa2" and rt in ("E", "F"):
+            ps = f[4:8] if rt == "E" else f[3:7]
+            for b, e in ((ps[0], ps[1]), (ps[2], ps[3])):
+                (bv, bl), (ev, el) = _pos(b), _pos(e)
+                if bv > ev:
+                    return False
+                if bl and not el and bv != 0:
+                    return False
+                if bl and not el:
+                    verdict = None
+                if bl and el and bv != ev:
+                    return False
+        if version == "gfa2" and rt == "S" and f[3] != "*" and int(f[2]) != len(f[3]):
+            verdict = None               # slen vs sequence length is a SHOULD in GFA2
+    except Exception:
+        return None
+    return verdict
